@@ -454,14 +454,81 @@ def r8_5(repo: Repo) -> RuleResult:
         only_file=LOT)
 
 
-RULES = [r8_1, r8_2, r8_3, r8_4, r8_5]
+DRIVERS = ("lot_vectors_sparse", "lot_vectors_dense", "lot_vectors_dense_generator", "sinkhorn_vectors_sparse")
+_DRIVER_CALLS = {"sklearn.utils.extmath.randomized_svd", "sklearn.utils.extmath.svd_flip", "numpy.memmap"}
+
+
+def _driver_facts(repo: Repo, f: Func) -> List[str]:
+    import copy
+
+    local = set()
+    for n in walk_no_nested(f.node):
+        if isinstance(n, ast.Assign):
+            for t in n.targets:
+                local |= {x.id for x in ast.walk(t) if isinstance(x, ast.Name)}
+        elif isinstance(n, ast.For):
+            local |= {x.id for x in ast.walk(n.target) if isinstance(x, ast.Name)}
+    local -= set(f.params)
+    numbering: Dict[str, str] = {}
+
+    class Number(ast.NodeTransformer):
+        def visit_Name(self, node):
+            if node.id in local:
+                numbering.setdefault(node.id, "L%d" % len(numbering))
+                return ast.copy_location(ast.Name(id=numbering[node.id], ctx=node.ctx), node)
+            return node
+
+    out = []
+    for c in sorted(repo.calls_in(f), key=lambda c_: (c_.lineno, c_.col_offset)):
+        canon = repo.canonical(f.module, c.func)
+        if canon not in _DRIVER_CALLS:
+            continue
+        cc = copy.deepcopy(c)
+        short_name = canon.rsplit(".", 1)[1]
+        if short_name == "randomized_svd" and cc.args:
+            cc.args = cc.args[1:]  # the matrix itself is what the drivers differ in
+            out.append("%s(<matrix>, %s)" % (short_name, ", ".join([norm(Number().visit(a)) for a in cc.args] + ["%s=%s" % (k.arg, norm(Number().visit(k.value))) for k in cc.keywords])))
+        elif short_name == "svd_flip":
+            # positional roles relative to the unpacking of the preceding randomized_svd are what matter: keep the
+            # order of the names as numbered at their first mention (the u, s, v unpacking precedes this call)
+            out.append("%s(%s)" % (short_name, ", ".join(norm(Number().visit(a)) for a in cc.args)))
+        else:
+            out.append("%s(%s)" % (short_name, ", ".join([norm(Number().visit(a)) for a in cc.args] + ["%s=%s" % (k.arg, norm(Number().visit(k.value))) for k in cc.keywords])))
+    return out
+
+
+def r8_6(repo: Repo) -> RuleResult:
+    """The four fit-side drivers (sparse / dense / generator input, Sinkhorn) carry their own copies of the same
+    tail: SVD of the embedded rows (single block, or block-wise through a memmap), sign fixing, components.  Whatever
+    the input format, that tail must be the same computation with the same configuration."""
+    rr = RuleResult("R8.6", "the fit-side drivers of the four input formats run the same SVD / sign-fixing / scratch-file steps with the same arguments", floor=3)
+    ref = repo.func(LOT, DRIVERS[0])
+    fr = _driver_facts(repo, ref)
+    if len(fr) < 4:
+        raise AnalysisError("R8.6: only %d SVD / memmap steps recognised in %s" % (len(fr), ref.key))
+    for nm in DRIVERS[1:]:
+        f = repo.func(LOT, nm)
+        ff = _driver_facts(repo, f)
+        construct = "%s vs %s" % (nm, DRIVERS[0])
+        if ff == fr:
+            rr.ok(f, construct, "%d steps equal (randomized_svd / svd_flip / memmap with their arguments)" % len(ff), f.node.lineno)
+        else:
+            import difflib
+
+            d = [l for l in difflib.unified_diff(fr, ff, lineterm="", n=0) if l[:1] in "+-" and l[:3] not in ("+++", "---")]
+            rr.bad(f, construct, "the drivers differ in their SVD tail (%s first, then %s): %s - the embedding of the same distributions depends on "
+                   "the input format that carried them" % (DRIVERS[0], nm, d[:4]), f.node.lineno)
+    return rr
+
+
+RULES = [r8_1, r8_2, r8_3, r8_4, r8_5, r8_6]
 CLAIM = (
     "R8.1 in both LOT kernels every path to the solver divides the row distribution by its own sum under `row_sum > 0` "
     "(must-pass-through + edge dominance); R8.2 every block / chunk loop of linear_optimal_transport.py has bounds start = i*B, "
     "end = min(n, start + B) and a divisor B guarded by max(>=1, ...) (or a configuration value), traced through parameters to "
     "call sites; R8.3 sparse and dense kernels have equal fact sets after their prologues; R8.4 spherical_vectors agreement; "
     "R8.5 definite assignment (CFG dataflow) in fit / transform of the transport estimators and the non-compiled functions they "
-    "reach: no arm of the input-format / reference-vector dispatch leaves a local that is read later unassigned."
+    "reach: no arm of the input-format / reference-vector dispatch leaves a local that is read later unassigned; R8.6 the four fit-side drivers (sparse, dense, generator, Sinkhorn) run the same randomized_svd / svd_flip / memmap steps with the same arguments (locals numbered in pipeline order)."
 )
 NOT_DECIDED = (
     "invariance under permutation, zero padding and splitting of support points, equality of equal distributions, and the isometry "
